@@ -1053,6 +1053,20 @@ def run(tier, seed_):
         grpc_data_positive(out, target, g, data_types)
         g.stop()
         g = None
+        # ---- an expired token stays expired across a restart (sessions are rebuilt from the raft log / snapshot on start-up)
+        target.restart()
+        fresh = target.api_login()
+        rr = send(target.http_port, "GET", "/nacos/v1/console/namespaces", query="", headers={"accessToken": expired})
+        rc = send(target.http_port, "GET", "/nacos/v1/console/namespaces", query="", headers={"accessToken": fresh or ""})
+        out.evaluations += 2
+        if rc is None or rc.status != 200:
+            out.extra["expired_after_restart"] = "inconclusive: fresh token not accepted after the restart (%s)" % (rc and rc.status)
+        elif rr is not None and rr.status != 403:
+            out.violation("http-invalid-token-accepted/expired-token-after-restart/GET /nacos/v1/console/namespaces",
+                          {"status": rr.status, "body": rr.text()[:200], "token_age_s": round(time.time() - t_login, 1), "login_ttl_s": LOGIN_TTL})
+        else:
+            out.shape("restart/expired-token-still-refused")
+            out.extra["expired_after_restart"] = "refused (403), fresh token accepted"
         # ---- cluster-internal gRPC types
         grpc_cluster_part(out, nodes["ctok-auth"], True, wd, tier)
         grpc_cluster_part(out, nodes["ctok-noauth"], False, wd, tier)
